@@ -273,7 +273,28 @@ ADDENDA4 = {   # round 10
     "C19": "a dedicated __iter__ / __reversed__ / __contains__ reads the trimmed views only.",
     "C20": "solve_ivp stores the system's dt nowhere but in its clipping callback.",
 }
-for _add in (ADDENDA2, ADDENDA3, ADDENDA4):
+ADDENDA5 = {   # round 11
+    "C01": "results kept between calls are keyed by everything they depend on (memoisation discipline: Richardson wrappers per (basis, levels)); the tables an instance steps with are the class tables that were verified.",
+    "C02": "the step loop calls the integrator the system holds at that step (no reference bound before the loop).",
+    "C03": "every retry of a rejected step is clamped to the requested step at the call.",
+    "C04": "the dt setter writes nothing but the step.",
+    "C05": "all stages entering the error estimate are evaluated in this call (re-judged).",
+    "C06": "the dense branch of a time lookup returns the interpolant on every path; the piece lists are changed only through the position-deciding branch of add_interpolant.",
+    "C07": "reset() replaces the piece store unconditionally (the event search uses it also when dense output is off); the classification probes include a resolvable wide one.",
+    "C08": "the classification probes include one at step*eps**0.5 or wider.",
+    "C09": "event attributes are read at every call (no memoised reading keyed by the identity of the event functions).",
+    "C10": "a mask handed to set_method reaches the live integrator on every path; instance tables are the class tables.",
+    "C11": "instance tables are the class tables (no row selection when adaptivity is switched).",
+    "C12": "reset() is unconditional also after a failure before the first accepted step (re-judged).",
+    "C14": "the iteration arrays of the vector solver are distinct objects (no live alias between an array updated in place and another name).",
+    "C15": "a failed linear solve in the backend propagates (no handler returns a substitute).",
+    "C16": "an array perturbed through a flat alias is C-contiguous by construction.",
+    "C17": "a Hermite piece owns copies of its six inputs.",
+    "C18": "no retry of a rejected step exceeds the requested (clipped) step.",
+    "C19": "the store the lookup bisects is changed only through the position-deciding branch (Richardson sub-steps included).",
+    "C20": "only the constructor, the dt setter, reset(), integrate() and the orientation helper store the step size.",
+}
+for _add in (ADDENDA2, ADDENDA3, ADDENDA4, ADDENDA5):
     for _k, _v in _add.items():
         ADDENDA[_k] = (ADDENDA[_k] + " " + _v[0].upper() + _v[1:]) if _k in ADDENDA else "Also decided: " + _v
 for _k, _v in ADDENDA.items():
